@@ -147,6 +147,11 @@ func slogValueToAny(v slog.Value) any {
 	}
 }
 
+// cycleMarker is the key of the visited map that records the error at which a
+// cycle was just cut. It must not collide with the address of a tracked error:
+// a typed nil pointer has address 0, no value lives at the highest address.
+const cycleMarker = ^uintptr(0)
+
 func buildNodes(causes []error, visited map[uintptr]uintptr) Nodes {
 	if len(causes) == 0 {
 		return nil
@@ -176,16 +181,16 @@ func buildNode(err error, visited map[uintptr]uintptr) (node *Node, ok bool) {
 		ptr := val.Pointer()
 
 		if _, ok := visited[ptr]; ok {
-			visited[0] = ptr
+			visited[cycleMarker] = ptr
 			return nil, false
 		}
 
 		visited[ptr] = ptr
 
 		defer func() {
-			if cyclePtr, hasCycle := visited[0]; hasCycle && cyclePtr == ptr {
+			if cyclePtr, hasCycle := visited[cycleMarker]; hasCycle && cyclePtr == ptr {
 				node.IsCyclic = true
-				delete(visited, 0)
+				delete(visited, cycleMarker)
 			}
 			delete(visited, ptr)
 		}()
